@@ -438,4 +438,41 @@ theorem onFilters_shape (ops : List Operand) (j : Nat) (on : E) (st : St) (f : E
       · right; exact dataFilters_shape ops _ st f h
     · simp at hf
 
+/-! ### identifier rewriting -/
+
+theorem lookupFrom_spec : ∀ (ops : List Operand) (q : List String) (k j : Nat), lookupFrom ops q k = some j →
+    k ≤ j ∧ ∃ o, ops[j - k]? = some o ∧ (aliasesOf o).contains q = true := by
+  intro ops
+  induction ops with
+  | nil => intro q k j h; simp [lookupFrom] at h
+  | cons o rest ih =>
+    intro q k j h
+    simp only [lookupFrom] at h
+    split at h
+    · rename_i j' hj
+      injection h with h; subst h
+      obtain ⟨h1, o', h2, h3⟩ := ih q (k + 1) j' hj
+      refine ⟨by omega, o', ?_, h3⟩
+      have : j' - k = (j' - (k + 1)) + 1 := by omega
+      rw [this, List.getElem?_cons_succ]; exact h2
+    · split at h
+      · rename_i hc
+        injection h with h; subst h
+        exact ⟨Nat.le_refl _, o, by simp, hc⟩
+      · cases h
+
+/-- the qualifier an identifier is rewritten to still denotes the same operand in `tables_idx` -/
+theorem shortName_resolves (ops : List Operand) (q : List String) (i : Nat) (h : lookupFrom ops q 0 = some i) :
+    lookupFrom ops (shortName ops i) 0 = some i := by
+  obtain ⟨_, o, ho, hq⟩ := lookupFrom_spec ops q 0 i h
+  have hgd : ops.getD i default = o := by simp [List.getD] at *; rw [ho]; rfl
+  simp only [shortName, hgd]
+  cases hf : (aliasesOf o).reverse.find? (fun a => lookupFrom ops a 0 = some i) with
+  | some a =>
+    have := List.find?_some hf
+    simpa using this
+  | none =>
+    have := List.find?_eq_none.mp hf q (by simpa using hq)
+    simp [h] at this
+
 end MindsVerif.ModelJoin
